@@ -118,6 +118,7 @@ SPEC = {
              "part of the input class; exported spans/streams/log records (at every processor) and pointer "
              "identity are compared with the first-match-wins model. Non-trivial = every case (each creates instruments or "
              "scopes and collects); distinct = hash of name+unit+kind / of the printed configuration."),
+    "rule_extra": " Round 2: one configurator builder in three is used again after Build() (a catch-all rule opposite to the default, second Build) - the first configurator must not notice; five view name patterns whose only construct is '.' and an instrument differing from one at the dot.",
     "assumptions": ASSUME_COMMON + [
         "a NUL inside a unit, and a selector that asks for a meter version/schema while the meter has none, are don't-care: both readings are accepted (counted as unit_dontcare_nul / view_cases_with_dontcare_match)",
         "values are only compared where the statement fixes them: sums and explicit-bucket histograms of synchronous instruments, default aggregations of observables; last-value points must be one of the recorded values (C17 owns 'latest'); drop aggregation may yield no stream or a stream without data",
